@@ -382,3 +382,34 @@ package repository
 //@   props C15
 //@   opt gitobjects
 //@   stable all(object.Commit.Author), all(object.Commit.Committer)
+
+// Increment / Witness by clock name (C05), on the go-git backed repository and on the in-memory one: it is the clock
+// registered under that name that moves, the time handed out is its new value, and a failure of the clock is reported -
+// a swallowed error would let a commit be stamped with a time that was never persisted.
+//@ func (*GoGitRepo).Increment
+//@   props C05
+//@   opt locks
+//@   requires [not-held@locks] repo != nil && !sync.mheld[&repo.clocksMutex]
+//@   ensures [the-named-clock-moved] result1 == nil ==> (name in repo.clocks) && lamport.value[repo.clocks[name]] == result
+//@ func (*GoGitRepo).Witness
+//@   props C05
+//@   opt locks
+//@   requires [not-held@locks] repo != nil && !sync.mheld[&repo.clocksMutex]
+//@   ensures [the-named-clock-has-seen-it] result == nil ==> (name in repo.clocks) && lamport.value[repo.clocks[name]] >= time
+// ... the in-memory repository: a clock is created at its first use and never replaced afterwards (a second clock
+// object under a name in use would start again from zero).
+//@ func (*mockRepoClock).GetOrCreateClock
+//@   props C05
+//@   requires r != nil && r.clocks != nil
+//@   modifies r.clocks, sync.mheld
+//@   opt trusted_frame
+//@   ensures [registered] result1 == nil ==> (name in r.clocks) && r.clocks[name] == result
+//@   ensures [never-replaced] forall n string :: { r.clocks[n] } (n in old(r.clocks)) ==> (n in r.clocks) && r.clocks[n] == old(r.clocks)[n]
+//@ func (*mockRepoClock).Increment
+//@   props C05
+//@   requires r != nil && r.clocks != nil
+//@   ensures [the-named-clock-moved] result1 == nil ==> (name in r.clocks) && lamport.value[r.clocks[name]] == result
+//@ func (*mockRepoClock).Witness
+//@   props C05
+//@   requires r != nil && r.clocks != nil
+//@   ensures [the-named-clock-has-seen-it] result == nil ==> (name in r.clocks) && lamport.value[r.clocks[name]] >= time
